@@ -192,8 +192,13 @@ def make_sampler(root, kwargs, model=None):
 
 
 def meta_of(ns):
+    import time as _time
     m = {"iteration": int(ns.iteration), "model_count": int(ns.model.likelihood_evaluations), "calls": Calls.n,
-         "ins": hasattr(ns, "training_samples")}
+         "ins": hasattr(ns, "training_samples"),
+         # timing accounting: what the sampler believes it has spent so far, and the wall clock since this
+         # process entered run()
+         "sampling_time": float(ns.sampling_time.total_seconds()),
+         "wall_in_run": (_time.time() - Calls.t_run) if getattr(Calls, "t_run", None) else 0.0}
     fp = getattr(ns, "_flow_proposal", None)
     if fp is not None:
         m.update(uninformed=bool(ns.uninformed_sampling), populated=bool(fp.populated),
@@ -242,11 +247,14 @@ def run_phase(root, kwargs, snapdir, logpath, keep, kill_at=None, pre_evals=0, s
         m0 = Calls.n
         fs = make_sampler(root, kwargs, model)
         emit({"resumed": bool(getattr(fs.ns, "resumed", False)), "iteration": int(fs.ns.iteration),
-              "m0": m0, "model_count_after_resume": int(fs.ns.model.likelihood_evaluations)})
+              "m0": m0, "model_count_after_resume": int(fs.ns.model.likelihood_evaluations),
+              "sampling_time": float(fs.ns.sampling_time.total_seconds())})
         install_hook(root, snapdir, logpath, keep)
         Calls.kill_at = kill_at
         if set_max is not None:
             fs.ns.max_iteration = set_max
+        import time as _time
+        Calls.t_run = _time.time()
         fs.run(plot=False, save=False)
         ns = fs.ns
         res = {"finished": True, "meta": meta_of(ns), "calls": Calls.n}
